@@ -221,7 +221,9 @@ def _decode_node(nodeid, lexer):
     carg = None
     if lexer.accept_type(LPAREN):
         carg, _ = lexer.expect_type(DQSTRING, RPAREN)
-    nodetype = lexer.accept_type(SYMBOL)
+    nodetype = None
+    if lexer.peek()[0] == SYMBOL and lexer.peek(1)[0] != EQUALS:
+        nodetype = lexer.expect_type(SYMBOL)
     properties = dict(_decode_properties(lexer))
     lexer.expect_type(SEMICOLON)
     return Node(int(nodeid), predicate, type=nodetype,
